@@ -30,7 +30,8 @@ def parser_jobs(prop, tier, wd, tags):
             dd = [x.replace('MINISTL_STR_CAP=12', 'MINISTL_STR_CAP=16').replace('PB_W=%d' % w, 'PB_W=%d' % wt) for x in defines]
         nm = e.replace('harness_', '')
         jobs.append(fw.Job('parse.%s.%s' % (nm, first if first not in (None, '*') else ('other' if first is None else 'any')), H, e, tus=['Compiler/src/ast.cpp'], defines=dd + fk, caps='caps_parse.hpp', unwind=w + 2,
-                           unwindset={'_ZL10select_rowii.0': info['rows'] + 1}, tags=tags, stubs=STUBS, native=False, extra=['--object-bits', '12'] + (['--memory-leak-check'] if 'C02' in tags else []),
+                           unwindset={'_ZL10select_rowii.0': info['rows'] + 1}, tags=tags, stubs=STUBS, native=False, extra=['--object-bits', '12'] + (['--memory-leak-check'] if 'C02' in tags and e not in ('harness_match', 'harness_expected_end') else []),   # (match / expected_end allocate nothing themselves, only their stubs do)
+                          
                            ub_pat=r'^(_Z\d|_ZN10ParseState|_ZN4Theo|_ZNSt|_ZNKSt|_ZSt)\S*\.(assertion|pointer_dereference|array_bounds)|memory-leak' if 'C02' in tags else None,
                            timeout=600 if tier == 'quick' else 1500,
                            what='real %s of parse.cpp entered on %s, every callee replaced by its contract stub, symbolic window of <= %d tokens: SOUND / COMPLETE against the LL(1) row selected by the lookahead, SAFE (cursor, progress, nullness)' % (nm, ('token ' + first) if first not in (None, '*') else ('any token outside its FIRST set' if first is None else 'any token'), w),
